@@ -6,3 +6,7 @@ import Props.C18
 #print axioms C18.expf_total
 #print axioms C18.curve_total
 #print axioms C18.cbrtf_accurate
+#print axioms C18.powf_accurate
+#print axioms C18.expf_accurate
+#print axioms C18.exp2_accurate
+#print axioms C18.log2_accurate
